@@ -152,6 +152,9 @@ def run(R, prop, extra_assumptions=()):
                                                               replay_hint="VERIF_OPS=<file with these ev lines> go1.26 test -tags verif ./harness/fwcore"))
         if label == "generated":
             samples = [l for l in lines if l.startswith(("ev int", "ev data"))][:4]
+            ncase = sum(1 for l in lines if l.startswith("case "))
+            if ncase != n:
+                R.proof_problems.append("the harness wrote %d of %d generated cases (trace incomplete)" % (ncase, n))
     R.coverage["distribution"] = kinds
     R.coverage["rule"] = RULE
     R.add_cases(total, len(distinct), samples)
